@@ -5,6 +5,21 @@ props = [json.loads(l) for l in open('/verif/properties.jsonl')]
 ids = [p['id'] for p in props]
 # id -> (category, technique, text, note, design_ref)
 checks = {
+ 'C09': ('exploration', 'exhaustive pair/triple enumeration over a value universe on the real Compare/Hash/CompareValueSlices/HashManyValues',
+         'All pairs and triples of an 86-value (1091 thorough) universe incl. NaN payloads, signed zeros, infinities, instants in two locations, nested lists/objects/tuples: reflexive, antisymmetric, transitive, equal => same hash, bytewise strings, NULL first.',
+         'Finite universe; the CLI-observable half (ORDER BY/GROUP BY/DISTINCT agreeing) is covered through C01/C03 query checks, not here.', '3/C09'),
+ 'C10': ('model_checking', 'explicit-state closure of the type constructors (BFS, structural dedup) with the algebra laws checked on every state and state pair',
+         'Types reachable from the primitives by List/Struct/Tuple/TypeSum to depth 2 (3 restricted, thorough); Is reflexive, TypeSum upper bound/commutative/idempotent, TypeIntersection contained in both, NonNullable, value-in-its-own-type for the C09 universe.',
+         'Only constructor-built types; pair laws over {depth<=1} x all states.', '3/C10'),
+ 'C11': ('exploration', 'exhaustive enumeration of boolean expression trees x {T,F,N}^3 through the real typecheck+materialize+evaluate path',
+         'All AND/OR/NOT trees of depth <=2 (3 thorough, up to variable renaming) under all 27 assignments vs a Kleene reference; every Strict function descriptor with NULL in every argument subset; IS [NOT] NULL on every value kind; the real Filter node keeps exactly TRUE rows.',
+         'Depth bound; depth-3 trees one representative per variable renaming.', '3/C11'),
+ 'C12': ('exploration', 'exhaustive (string, pattern) pair enumeration over a 22-symbol metacharacter/multibyte alphabet on the real function implementations',
+         'LIKE vs a recursive rune matcher (cross-checked with a second model), ~ and ~* vs Go regexp, upper/lower/replace/reverse/substr/position/len vs plain Go, all strings <=2 x patterns <=2 (3 thorough).',
+         'Byte- or rune-indexed answers both accepted for substr/position/len; dangling escapes undefined.', '3/C12'),
+ 'C13': ('exploration', 'exhaustive argument-tuple enumeration over edge-value alphabets through the real typecheck+materialize+evaluate path',
+         'Every descriptor of the arithmetic/conversion/time functions, IN/NOT IN, COALESCE and list indexing on all tuples of boundary values vs plain Go arithmetic; undefined cases skipped.',
+         'Only what descriptions/the statement define is judged (division by zero, int(NaN) etc. skipped).', '3/C13'),
  'C14': ('model_checking', 'explicit-state exploration of add/retract histories replayed on fresh instances of the real aggregates, compared with a from-scratch reference and a fresh-instance differential',
          'All prefix-valid add/retract histories up to length 6 (8 thorough) over 3 values per type for every aggregate descriptor; Trigger() checked at every prefix with a non-empty net multiset.',
          'Bounded history length and value domains; NaN/signed zero excluded (C09); float sums within 1e-9 relative tolerance.', '3/C14'),
@@ -20,9 +35,21 @@ checks = {
  'C18': ('model_checking', 'explicit-state exploration of watermarked changelogs on every real node/TVF/pipeline + exhaustive schedule enumeration for joins (hook H1)',
          'Every valid watermarked changelog up to the length bound through every single-input node, the event-time buffer (exact release order oracle), tumble, max_diff_watermark, a max_diff_watermark->tumble->group-by pipeline, and every interleaving of watermarked per-side scripts through the four joins and join->group-by: watermarks never regress and no record is emitted with a non-zero event time at or below a forwarded watermark.',
          'No late input records (a zero-event-time record after a watermark on the same input counts as late: weaker reading); bounded length.', '3/C18'),
+ 'C20': ('exploration', 'exhaustive time-sequence x configuration enumeration on the real max_diff_watermark node',
+         'All time sequences up to length 4 (6 thorough) over 7 instants incl. one before 1970, x max_diff {0,1s,2s} x resolution {default,1s,2s}: watermark value, strict increase, emission whenever it grows, pass/drop rule and event time.',
+         'max_diff<0 and resolution<=0 out of contract.', '3/C20'),
+ 'C21': ('exploration', 'exhaustive enumeration of times/lengths/offsets (tumble), (start,end) pairs (range) and snapshot triples (poll) on the real nodes',
+         'tumble window laws with big-integer arithmetic from Go zero time; range emits [start,end) once ascending; poll rounds = retractions of previous snapshot, current snapshot, watermark.',
+         'Real clock of poll only observed through order relations.', '3/C21'),
  'C22': ('model_checking', 'explicit-state exploration of changelogs with watermarks on the real output wrapper',
          'Every valid changelog with watermarks up to length 5 (7 thorough): at each forwarded watermark emitted == input up to it, nothing emitted that was not in the input, everything emitted by end of stream.',
          'No late records; retraction event time not before its insert.', '3/C22'),
+ 'C25': ('exploration', 'exhaustive enumeration of edge-case strings/numbers/nested values through the real JSON and CSV formatters, decoded by independent decoders',
+         'Every byte 0x00-0x7F, multibyte and invalid UTF-8, all ordered pairs (triples thorough) over a 22-char edge set, numeric extremes, NaN/Inf, nested values, union-typed columns: each JSON line must be valid JSON decoding to the row; each CSV record decodes (own RFC 4180 decoder) to the scalar texts.',
+         'Time/Duration text not judged; nested values in CSV out of scope; invalid UTF-8 only needs a valid line.', '3/C25'),
+ 'C30': ('exploration', 'grammar-based exhaustive statement enumeration + corpus mutation through Parse/String/Parse with a strict structural tree diff',
+         'Depth-bounded generator covering every OctoSQL extension in sql.y, every string literal of the vendored parser tests and tests/scenarios queries (and their one-word mutations, thorough): print, re-parse, trees must be equal and printing idempotent.',
+         'Statements the parser rejects are counted, not judged.', '3/C30'),
  'C19': ('model_checking', 'stateless exhaustive schedule enumeration of the real join loops under a controller (hook H1)',
          'Every interleaving of every pair of valid per-side scripts (bounded length, 2 keys, 3 times, plus a retraction family) is executed on the real StreamJoin/OuterJoin; at every forwarded watermark and at end of stream the consolidated output must equal the reference join of the inputs up to that point.',
          'Assumes hook H1 reports every message taken (one message in flight at a time, so the schedule is the order the join sees); bounded script length; values compared, not output event times.', '3/C19'),
